@@ -75,7 +75,7 @@ def run(tier, seed):
     rng = ck.rng
     keys = chaingen.Keys()
     reqs, wants = [], []
-    ntr = 16 if tier == 'quick' else 100
+    ntr = 16 if tier == 'quick' else 400
     for trial in range(ntr):
         with chaingen.Env(period=50) as env:
             nk = rng.choice([1, 2, 3, 4])
@@ -177,7 +177,7 @@ def run(tier, seed):
             reqs.append(('spend_run', [], [used0, hold, model_reqs]))
             wants.append((model_wants, {'trial': trial, 'shape': shape}))
     # ---- spends across head changes: confirmation of an earlier spend, then a fork switch that un-confirms it
-    for trial in range(4 if tier == 'quick' else 20):
+    for trial in range(4 if tier == 'quick' else 60):
         with chaingen.Env(period=50) as env:
             shape = [(rng.randrange(2), rng.choice([5, 10, 100])) for _ in range(rng.choice([4, 6, 8]))]
             nodes, cs3 = build_ledger(env, keys, rng, shape)
@@ -232,7 +232,7 @@ def run(tier, seed):
     # ---- wallets in unusual but legitimate shapes: (a) a funded key sits in the UNUSED pool again (handed out, paid to,
     #      then restored -- as the miner does when it stops); (b) one key's private part is unusable (watch-only / corrupt):
     #      a spend that needs it fails in signing and leaves no trace, a spend that does not need it succeeds
-    for trial in range(4 if tier == 'quick' else 16):
+    for trial in range(4 if tier == 'quick' else 48):
         with chaingen.Env(period=50) as env:
             shape = [(0, 10), (1, 100), (0, 7), (1, 50)]
             nodes, cs = build_ledger(env, keys, rng, shape)
@@ -277,7 +277,7 @@ def run(tier, seed):
                         ck.violation('affordable-spend-refused-after-failed-attempt', 'after a spend failed while signing, a spend '
                                      'that the usable key alone can pay is refused with insufficient funds', rp)
     # ---- a key generated AFTER the wallet was first used receives funds: they are spendable
-    for trial in range(2 if tier == 'quick' else 8):
+    for trial in range(2 if tier == 'quick' else 24):
         with chaingen.Env(period=50) as env:
             nodes, cs = build_ledger(env, keys, rng, [(0, 10), (1, 100), (0, 7)])
             tg = build_ledger.tg
